@@ -213,6 +213,9 @@ func doParsing(mp *msgParser) (err error) {
 
 	// Get body length.
 	mp.fieldIndex++
+	if mp.fieldIndex >= len(mp.msg.fields) {
+		return errMessageTruncated(mp.rawBytes)
+	}
 	mp.parsedFieldBytes = &mp.msg.fields[mp.fieldIndex]
 	if mp.rawBytes, err = extractSpecificField(mp.parsedFieldBytes, tagBodyLength, mp.rawBytes); err != nil {
 		return
@@ -221,6 +224,9 @@ func doParsing(mp *msgParser) (err error) {
 
 	// Get msg type.
 	mp.fieldIndex++
+	if mp.fieldIndex >= len(mp.msg.fields) {
+		return errMessageTruncated(mp.rawBytes)
+	}
 	mp.parsedFieldBytes = &mp.msg.fields[mp.fieldIndex]
 	if mp.rawBytes, err = extractSpecificField(mp.parsedFieldBytes, tagMsgType, mp.rawBytes); err != nil {
 		return
@@ -234,6 +240,9 @@ func doParsing(mp *msgParser) (err error) {
 	mp.foundBody = false
 	mp.foundTrailer = false
 	for {
+		if mp.fieldIndex >= len(mp.msg.fields) {
+			return errMessageTruncated(mp.rawBytes)
+		}
 		mp.parsedFieldBytes = &mp.msg.fields[mp.fieldIndex]
 		if xmlDataLen > 0 {
 			mp.rawBytes, err = extractXMLDataField(mp.parsedFieldBytes, mp.rawBytes, xmlDataLen)
@@ -312,6 +321,11 @@ func parseGroup(mp *msgParser, tags []Tag) {
 	fields := getGroupFields(mp.msg, tags, mp.appDataDictionary)
 
 	for {
+		if mp.fieldIndex+1 >= len(mp.msg.fields) {
+			// The message ends inside the group; the caller reports the missing trailer.
+			mp.msg.Body.add(dm)
+			return
+		}
 		mp.fieldIndex++
 		mp.parsedFieldBytes = &mp.msg.fields[mp.fieldIndex]
 		mp.rawBytes, _ = extractField(mp.parsedFieldBytes, mp.rawBytes)
@@ -538,6 +552,10 @@ func (m *Message) reverseRoute() *Message {
 	}
 
 	return reverseMsg
+}
+
+func errMessageTruncated(remaining []byte) error {
+	return parseError{OrigError: "message ends before the CheckSum field: " + string(remaining)}
 }
 
 func extractSpecificField(field *TagValue, expectedTag Tag, buffer []byte) (remBuffer []byte, err error) {
